@@ -28,17 +28,20 @@ NOID = "-"
 
 
 def file_text(lines):
+    """lines as rendered by the spec: the attribute column is the given key=value tokens, in the given order"""
     out = ["##gff-version 3\n", "# written by the C17 check\n"]
     for ln in lines:
-        biotype = "gene" if ln["parent"] == NOID else "CDS"
-        attrs = []
-        if ln["id"] != NOID:
-            attrs.append(f"ID={ln['id']}")
-        if ln["parent"] != NOID:
-            attrs.append(f"Parent={ln['parent']}")
         f, l = ln["c"]
-        out.append(f"{ln['seqid']}\tverif\t{biotype}\t{f}\t{l}\t.\t{ln['strand']}\t.\t{';'.join(attrs)}\n")
+        attrs = ";".join(f"{k}={v}" for k, v in ln["attrs"])
+        out.append(f"{ln['seqid']}\tverif\t{ln['biotype']}\t{f}\t{l}\t.\t{ln['strand']}\t.\t{attrs}\n")
     return "".join(out)
+
+
+def tokens(text):
+    """the stored attributes column, split back into (key, value) tokens"""
+    if not text:
+        return ()
+    return tuple(tuple(t.split("=", 1)) for t in text.split(";"))
 
 
 def rec8p(row):
@@ -46,11 +49,11 @@ def rec8p(row):
     name = row["name"]
     if name is not None and re.fullmatch(r"unknown-\d+", name):
         name = "unknown"  # the database invents a name for a feature without ID
-    return (row["seqid"], row["biotype"], name, row.get("parent_id") or NOID, row["strand"], spans, int(row["start"]), int(row["stop"]))
+    return (row["seqid"], row["biotype"], name, row.get("parent_id") or NOID, row["strand"], spans, int(row["start"]), int(row["stop"]), tokens(row.get("attributes")))
 
 
 def spec8p(r):
-    return (r["seqid"], r["biotype"], r["name"], r["parent"], r["strand"], tuple((a, b) for a, b in r["spans"]), r["start"], r["stop"])
+    return (r["seqid"], r["biotype"], r["name"], r["parent"], r["strand"], tuple((a, b) for a, b in r["spans"]), r["start"], r["stop"], tuple((k, v) for k, v in r["attrs"]))
 
 
 def feat5p(row):
@@ -102,7 +105,13 @@ def step_key(frm, act, args, what):
     split = "yes" if len(ids) != len(set(ids)) else "no"
     f = "none" if not filt else ("one" if len(filt) == 1 else "all")
     existing = "yes" if any(r["name"] == "u1" for r in frm["recs"]) else "no"
-    return f"gff:load:Load:block={'1' if blk == 1 else 'big'}:filter={f}:multiline-feature={split}:nth={frm['nloads'] + 1}:existing-records={existing}:{what}"
+    key = f"gff:load:Load:block={'1' if blk == 1 else 'big'}:filter={f}:multiline-feature={split}:nth={frm['nloads'] + 1}:existing-records={existing}"
+    extra = sorted({k for ln in kept for k, _v in ln["attrs"] if k not in ("ID", "Parent")})
+    if extra:
+        idless = sum(1 for ln in kept if ln["id"] == NOID and any(k not in ("ID", "Parent") for k, _v in ln["attrs"]))
+        first = any(ln["attrs"] and ln["attrs"][0][0] in ("ID", "Parent") and len(ln["attrs"]) > 1 and ln["attrs"][-1][0] not in ("ID", "Parent") for ln in kept)
+        key += f":other-keys={'+'.join(extra)}:id-less-lines-with-them={min(idless, 2)}:{'own-keys-first' if first else 'own-keys-last-or-absent'}"
+    return key + f":{what}"
 
 
 def _group(raw):
@@ -152,6 +161,11 @@ def _group(raw):
                 if got != exp:
                     if last:
                         d1, _x = A.diff_class(exp[0], got[0])
+                        if d1 and d1.startswith("seqid-altered") is False and len(exp[0]) == len(got[0]):
+                            for col, name in ((2, "name"), (3, "parent"), (8, "attributes")):
+                                if sorted(t[:col] + t[col + 1 :] for t in exp[0]) == sorted(t[:col] + t[col + 1 :] for t in got[0]):
+                                    d1 = f"{name}-altered"
+                                    break
                         what = f"records:{d1}" if d1 else "children"
                         fails.append((step_key(frm, a, g, what), {"from": frm, "act": a, "args": g, "file": file_text(g[0]) if a == "Load" else None, "expected": {"records": exp[0], "children_of_a": exp[1]}, "observed": {"records": got[0], "children_of_a": got[1]}}, "records after loading differ from the features the file denotes"))
                     break
@@ -194,9 +208,10 @@ def validate(run, scratch, cfg, fraction):
                 run.fail(key, detail, what=what)
     if total == 0:
         raise MachineryError("AnnotDbLoad: nothing was executed")
-    run.note("load_files_x_filters", len(jobs))
-    run.note("load_emitted_transitions", ntrans)
-    run.note("load_transitions_executed", total)
+    tag = cfg.replace("MC_AnnotDb_", "").replace(".cfg", "")
+    run.note(f"{tag}_files_x_filters_x_attribute_layouts", len(jobs))
+    run.note(f"{tag}_emitted_transitions", ntrans)
+    run.note(f"{tag}_transitions_executed", total)
     if sample:
         run.cov["samples"].append(sample)
     return total
